@@ -30,7 +30,7 @@ def run_impl(case):
         s = io.StringIO()
         if how == "class":
             cls = TABEAM_FinnisSinclair_EAMTabulation if fs else TABEAM_EAMTabulation
-            cls(pots, eams, float(m["cut"]), m["nr"], float(m["cutrho"]), m["nrho"]).write(s)
+            eamlib.write_second_time(cls(pots, eams, float(m["cut"]), m["nr"], float(m["cutrho"]), m["nrho"]), s)
         else:
             d = eamlib.direct_args(m)
             (writeTABEAMFinnisSinclair if fs else writeTABEAM)(m["nrho"], float(Fr(d["drho"])), m["nr"], float(Fr(d["dr"])), eams, pots, s)
